@@ -257,7 +257,7 @@ theorem stepCore_eff {s s' : St} {op : Op} {o : Out} (h : stepCore s op = some (
   case «calc» q a t =>
     simp only [Option.map_eq_some_iff, Prod.mk.injEq] at h
     obtain ⟨⟨s1, v⟩, h1, rfl, _⟩ := h
-    exact calcRewards_eff h1
+    exact Eff.of_frame (by simp)
   case transfer a b p =>
     simp only [transfer, Option.bind_eq_bind, Option.bind_eq_some_iff, req_eq_some,
       Option.pure_def, Option.some.injEq, Prod.mk.injEq] at h
